@@ -72,7 +72,9 @@ func run(p *analysis.Pass) ([]Range, error) {
 					if !nolintContainsNilAway(comm.Text) {
 						continue
 					}
-					fromPos, toPos := pass.Fset.Position(node.Pos()), pass.Fset.Position(node.End())
+					// The positions of conflicts are not adjusted by `//line` directives (see
+					// [inference.primitivizer.toPosition]), so the ranges must not be either.
+					fromPos, toPos := pass.Fset.PositionFor(node.Pos(), false), pass.Fset.PositionFor(node.End(), false)
 					ranges = append(ranges, Range{Filename: tokenhelper.RelToCwd(fromPos.Filename), From: fromPos.Line, To: toPos.Line})
 				}
 			}
